@@ -136,6 +136,9 @@ class C06(core.Prop):
         if clean:
             # a run in which every constraint holds (an output file left by an earlier run must not survive it)
             cons = {c['name']: [{'kind': 'max_nulls', 'value': fr['nrows']}] for c in fr['cols']}
+        if not clean and rng.random() < 0.1:
+            # constraints on a field the data lacks: they fail in detection as they do in verification
+            cons['missing_field'] = [{'kind': 'type', 'value': 'int'}, {'kind': 'max_nulls', 'value': 0}][:rng.randint(1, 2)]
         e = rng.choice(c02.EPS)
         opts = {'per_constraint': rng.random() < 0.6, 'write_all': rng.random() < 0.4,
                 'output_fields': rng.choice([None, None, [], [fr['cols'][0]['name']]]),
@@ -330,8 +333,9 @@ class C06(core.Prop):
             # verdicts identical to plain verification
             for name, fr in ver.fields.items():
                 for kind, val in fr.items():
-                    if bool(v.fields[name][kind]) != bool(val):
-                        fail('verdict-differs-from-verify', '%s.%s detect %s verify %s' % (name, kind, v.fields[name][kind], val))
+                    dv = dict(v.fields[name]).get(kind) if name in v.fields else None
+                    if dv is None or bool(dv) != bool(val):
+                        fail('verdict-differs-from-verify', '%s.%s detect %s verify %s' % (name, kind, dv, val))
             if (v.passes, v.failures) != (ver.passes, ver.failures):
                 fail('verdict-differs-from-verify', 'totals differ')
             # output file exists afterwards only if some constraint failed
@@ -343,6 +347,12 @@ class C06(core.Prop):
                 if exists and open(outpath, 'rb').read().startswith(b'stale,content'):
                     fail('outfile', 'stale content survived', 'outfile:stale-content')
             # input unchanged unless in_place
+            if o['in_place']:
+                # in place: the input gains the detection columns, nothing else (no copies of its own fields)
+                gained = [c_ for c_ in df.columns if c_ not in list(orig.columns)]
+                odd = [c_ for c_ in gained if not (c_ == 'n_failures' or str(c_).endswith('_ok'))]
+                if odd:
+                    fail('input-changed', 'in place: the input frame gained %r besides the detection columns' % odd, 'input-changed:in-place-extra-columns')
             if not o['in_place']:
                 same = list(df.columns) == list(orig.columns) and all(str(a) == str(b) for a, b in zip(df.dtypes, orig.dtypes)) \
                     and df.equals(orig) and df.index.equals(orig.index) and list(df.index.names) == list(orig.index.names)
